@@ -21,6 +21,16 @@ func nalBody(t *core.Tape, n int) []byte {
 	if n > 0 && b[n-1] == 0 {
 		b[n-1] = 0x5A
 	}
+	// emulation-prevention sequences 00 00 03 are legal inside (and at the end of) a NAL unit
+	if n >= 4 && t.Chance(1, 6) {
+		i := t.Intn(n - 2)
+		if i == 0 || b[i-1] != 0 {
+			b[i], b[i+1], b[i+2] = 0, 0, 3
+			if i+3 < n && b[i+3] == 0 {
+				b[i+3] = 0x81
+			}
+		}
+	}
 	return b
 }
 
